@@ -12,6 +12,7 @@ import (
 	"math/rand"
 	"os"
 	"strings"
+	"sync"
 
 	"golang.org/x/tools/go/ssa"
 )
@@ -33,14 +34,51 @@ func reg(name string, f intrinsicFn) { intrinsics[name] = f }
 
 const hp = SodPath + "."
 
+// per-function dispatch decisions are cached (fn.String() is expensive)
+type dispatchInfo struct {
+	name      string
+	intrinsic intrinsicFn
+	interpret bool
+}
+
+var dispatchCache sync.Map // *ssa.Function -> *dispatchInfo
+
+func fnString(fn *ssa.Function) string {
+	if d, ok := dispatchCache.Load(fn); ok {
+		return d.(*dispatchInfo).name
+	}
+	return fn.String()
+}
+
 func (i *interpreter) dispatchIntrinsic(fr *frame, fn *ssa.Function, args []value) (value, bool) {
+	if d, ok := dispatchCache.Load(fn); ok {
+		di := d.(*dispatchInfo)
+		if di.intrinsic != nil {
+			if i.path != nil {
+				i.path.intr[di.name]++
+			}
+			return di.intrinsic(i, fr, args), true
+		}
+		if di.interpret {
+			return nil, false
+		}
+	}
 	name := fn.String()
 	if f, ok := intrinsics[name]; ok {
+		dispatchCache.Store(fn, &dispatchInfo{name: name, intrinsic: f})
 		if i.path != nil {
 			i.path.intr[name]++
 		}
 		return f(i, fr, args), true
 	}
+	if v, handled := i.dispatchSlow(fr, fn, args, name); handled {
+		return v, true
+	}
+	dispatchCache.Store(fn, &dispatchInfo{name: name, interpret: true})
+	return nil, false
+}
+
+func (i *interpreter) dispatchSlow(fr *frame, fn *ssa.Function, args []value, name string) (value, bool) {
 	if fn.Synthetic != "" && fn.Blocks != nil {
 		pkg := fn.Package()
 		if pkg == nil || pkg == i.P.Sod {
